@@ -264,7 +264,11 @@ def terminals(tree, stream, **params):
 def tigerxml_begin(stream, **params):
     """The start of a tigerxml document. To be completed.
     """
-    stream.write(u"<?xml version='1.0'?>\n")
+    encoding = getattr(stream, 'encoding', None)
+    if encoding:
+        stream.write(u"<?xml version='1.0' encoding='%s'?>\n" % encoding)
+    else:
+        stream.write(u"<?xml version='1.0'?>\n")
     stream.write(u"<corpus>\n")
     stream.write(u"<body>\n")
 
